@@ -190,6 +190,17 @@ def decode_member(desc, tier, seed, props=('C01', 'C03', 'C07', 'C16'), encoders
                         ctx.check('C03.selection-variable-describes-instance',
                                   ch.origin in nodes and (ch.origin, opt_name) in der, wit,
                                   f'variable {k} = {xi[k]} but {ch.origin}->{opt_name} not in instance', nt)
+            if 'C03' in props and desc.dvs:
+                # design-variable nodes of the instance carry the reported values
+                vals3 = inst.des_var_values
+                for d in desc.dvs:
+                    n3 = b.node[d.name]
+                    k3 = [i for i, dv in enumerate(dvs) if dv.node == n3]
+                    if d.name in arch[0] and k3:
+                        v3 = vals3.get(n3)
+                        ctx.check('C03.design-variable-node-carries-reported-value',
+                                  bool(act[k3[0]]) and v3 is not None and abs(float(v3) - float(xi[k3[0]])) < 1e-9, wit,
+                                  f'{d.name} is in the instance with value {v3}; variable {k3[0]} reports {xi[k3[0]]} active={act[k3[0]]}', nt)
             if 'C07' in props:
                 nodes = arch[0]
                 for k, dv in enumerate(dvs):
